@@ -94,21 +94,29 @@ class Model:
         """may the simulator announce full id fi as (region r, local, parent) now?"""
         if parent == local:
             return False
-        cur = self.objs.get(fi)
         if r == 2:
             return True                               # unknown region: new objects are ignored, known ones become regionless
         if not self.tracked[r]:
-            return cur is None                        # a region that was torn down sends nothing about objects that live elsewhere
-        holder = self.live(r).get(local)
-        if holder is not None and holder != fi:
-            return False                              # assumption 1: one local id, one live object
-        m = self.copy()
-        m.objs[fi] = [r, local, parent, 0]
-        return m._acyclic(r)                          # assumption 2: no parent cycle
+            return fi not in self.objs                # a region that was torn down sends nothing about objects that live elsewhere
+        par = {}
+        for f, v in self.objs.items():
+            if v[0] == r and f != fi:
+                if v[1] == local:
+                    return False                      # assumption 1: one local id, one live object
+                par[v[1]] = v[2]
+        x = parent                                    # assumption 2: the new link local -> parent closes no cycle
+        while x:
+            if x == local:
+                return False
+            x = par.get(x, 0)
+        return True
 
     def enabled(self, step):
         kind = step[0]
         if kind == "upd":
+            if len(step[3]) == 1:
+                (local, fi, parent), = step[3]
+                return self.block_ok(step[2], local, fi, parent)
             m = self.copy()
             seen = set()
             for (local, fi, parent) in step[3]:
@@ -315,15 +323,22 @@ class Env:
         asyncio.set_event_loop(None)
 
 
+_UUIDS = {}
+
+
 def full_uuid(fi):
-    from hippolyzer.lib.base.datatypes import UUID
-    return UUID(int=0xC1400000 + fi + 1)
+    u = _UUIDS.get(fi)
+    if u is None:
+        from hippolyzer.lib.base.datatypes import UUID
+        u = _UUIDS[fi] = UUID(int=0xC1400000 + fi + 1)
+    return u
 
 
 class Failure(Exception):
     def __init__(self, key, clause, observed):
         super().__init__(key)
         self.key, self.clause, self.observed = key, clause, observed
+        self.hazards = ()
 
 
 DEFAULT_CONFIG = {"allow_auto": True, "auto_missing": False, "vo_cache": False, "cache": {}}
@@ -566,8 +581,17 @@ class World:
 
     # -- the oracle
     def _check(self, eff, raised, pre_keys):
+        try:
+            self._check_inner(eff, raised, pre_keys)
+        except Failure as f:
+            f.hazards = tuple(sorted(eff.hazards))
+            if "both-request-types" in f.key:
+                f.hazards += ("both-request-types",)
+            raise
+
+    def _check_inner(self, eff, raised, pre_keys):
         import traceback
-        hz = ("/" + sorted(eff.hazards)[0]) if eff.hazards else ""
+        hz = (sorted(eff.hazards)[0] + "/") if eff.hazards else ""
         recs, self.env.catcher.records[:] = list(self.env.catcher.records), []
         # no handler raises (the event dispatcher swallows and logs handler exceptions)
         errs = []
@@ -584,14 +608,14 @@ class World:
             else:
                 errs.append("logged error: " + rec.getMessage()[:160])
         if errs:
-            raise Failure("raise" + hz, "no handler raises", "; ".join(errs[:3]))
+            raise Failure(hz + "raise", "no handler raises", "; ".join(errs[:3]))
         if clobber:
-            raise Failure("index/clobber" + hz, "an object was tracked under a local id that another live object still held "
+            raise Failure(hz + "index/clobber", "an object was tracked under a local id that another live object still held "
                           "(the history never gives one local id to two live objects)", clobber)
         try:
             self._check_graph(hz)
         except ReferenceError as e:
-            raise Failure("links/dangling" + hz, "Parent/Children links only point at tracked objects", "dead weak reference: %s" % e)
+            raise Failure(hz + "links/dangling", "Parent/Children links only point at tracked objects", "dead weak reference: %s" % e)
         self._check_futures(eff, hz, pre_keys)
 
     def _check_graph(self, hz):
@@ -604,10 +628,10 @@ class World:
             live = model.live(r)
             lookup = state.localid_lookup
             if set(lookup) != set(live):
-                raise Failure("index/live-set" + hz, "the local-id index holds exactly the objects announced and not since killed or unloaded",
+                raise Failure(hz + "index/live-set", "the local-id index holds exactly the objects announced and not since killed or unloaded",
                               "region %d: tracked local ids %s, reference %s" % (handle, sorted(lookup), sorted(live)))
             if (world._get_region_manager(handle) is not None) != model.tracked[r]:
-                raise Failure("index/region" + hz, "a region's object manager is registered with the world exactly while the region is up",
+                raise Failure(hz + "index/region", "a region's object manager is registered with the world exactly while the region is up",
                               "region %d registered=%s, reference %s" % (handle, world._get_region_manager(handle) is not None, model.tracked[r]))
             orphans = model.orphans(r)
             for local, fi in live.items():
@@ -615,56 +639,56 @@ class World:
                 _, _, parent, _ = model.objs[fi]
                 expected_full[fi] = obj
                 if obj.LocalID != local or obj.FullID != full_uuid(fi) or obj.RegionHandle != handle:
-                    raise Failure("index/identity" + hz, "an object is filed under its own local id in its own region",
+                    raise Failure(hz + "index/identity", "an object is filed under its own local id in its own region",
                                   "region %d local %d holds object LocalID=%r FullID=%s RegionHandle=%r, reference full id %s"
                                   % (handle, local, obj.LocalID, obj.FullID, obj.RegionHandle, full_uuid(fi)))
                 if obj.ParentID != parent:
-                    raise Failure("index/identity" + hz, "an object names the parent last announced for it",
+                    raise Failure(hz + "index/identity", "an object names the parent last announced for it",
                                   "region %d local %d: ParentID %r, reference %d" % (handle, local, obj.ParentID, parent))
                 if world.lookup_fullid(full_uuid(fi)) is not obj or region.objects.lookup_fullid(full_uuid(fi)) is not obj \
                         or region.objects.lookup_localid(local) is not obj:
-                    raise Failure("index/agreement" + hz, "lookup by local id and lookup by full id give the same object",
+                    raise Failure(hz + "index/agreement", "lookup by local id and lookup by full id give the same object",
                                   "region %d local %d / full id %s" % (handle, local, full_uuid(fi)))
                 # parent -> children
                 want = model.children(r, local)
                 if sorted(obj.ChildIDs) != want:
-                    raise Failure("links/children" + hz, "an object's children are exactly the tracked objects naming it as parent",
+                    raise Failure(hz + "links/children", "an object's children are exactly the tracked objects naming it as parent",
                                   "region %d local %d: ChildIDs %s, reference %s" % (handle, local, list(obj.ChildIDs), want))
                 if len(obj.Children) != len(obj.ChildIDs) or any(lookup.get(cid) is None or c.LocalID != cid or c.FullID != lookup[cid].FullID
                                                                  for cid, c in zip(obj.ChildIDs, obj.Children)):
-                    raise Failure("links/children" + hz, "Children and ChildIDs list the same tracked objects in the same order",
+                    raise Failure(hz + "links/children", "Children and ChildIDs list the same tracked objects in the same order",
                                   "region %d local %d: ChildIDs %s, Children %s" % (handle, local, list(obj.ChildIDs), [c.LocalID for c in obj.Children]))
                 # child -> parent
                 if parent and parent in live:
                     if obj.Parent is None or obj.Parent.LocalID != parent or obj.Parent.FullID != lookup[parent].FullID:
-                        raise Failure("links/parent" + hz, "an object whose parent is tracked is linked to it",
+                        raise Failure(hz + "links/parent", "an object whose parent is tracked is linked to it",
                                       "region %d local %d names parent %d: Parent is %s" %
                                       (handle, local, parent, "None" if obj.Parent is None else "local %r" % obj.Parent.LocalID))
                 elif obj.Parent is not None:
-                    raise Failure("links/parent" + hz, "an object without a tracked parent has no parent link",
+                    raise Failure(hz + "links/parent", "an object without a tracked parent has no parent link",
                                   "region %d local %d (parent %d): Parent is local %r" % (handle, local, parent, obj.Parent.LocalID))
             actual = {k: sorted(v) for k, v in list(state._orphans.items()) if v}
             if actual != orphans:
-                raise Failure("orphans" + hz, "the orphan lists hold exactly the tracked objects whose named parent is not tracked",
+                raise Failure(hz + "orphans", "the orphan lists hold exactly the tracked objects whose named parent is not tracked",
                               "region %d: orphan lists %s, reference %s" % (handle, actual, orphans))
             if len(region.objects) != len(live):
-                raise Failure("index/live-set" + hz, "len(region.objects) counts the live objects", "region %d: %d vs %d" % (handle, len(region.objects), len(live)))
+                raise Failure(hz + "index/live-set", "len(region.objects) counts the live objects", "region %d: %d vs %d" % (handle, len(region.objects), len(live)))
         for fi, v in model.objs.items():
             if v[0] is None:
                 # moved into a region the session does not know: kept by full id only (test_object_moved_to_bad_region)
                 obj = world.lookup_fullid(full_uuid(fi))
                 if obj is None or obj.FullID != full_uuid(fi):
-                    raise Failure("index/full-set" + hz, "an object that moved to an unknown region stays known by full id",
+                    raise Failure(hz + "index/full-set", "an object that moved to an unknown region stays known by full id",
                                   "full id %s not found" % full_uuid(fi))
                 expected_full[fi] = obj
         actual_full = set(world._fullid_lookup.keys())
         want_full = {full_uuid(fi) for fi in expected_full}
         if actual_full != want_full or len(world) != len(want_full):
-            raise Failure("index/full-set" + hz, "the full-id index holds exactly the objects announced and not since killed or unloaded",
+            raise Failure(hz + "index/full-set", "the full-id index holds exactly the objects announced and not since killed or unloaded",
                           "full-id index %s, reference %s" % (sorted(str(u)[-2:] for u in actual_full), sorted(str(u)[-2:] for u in want_full)))
         for fi, obj in expected_full.items():
             if world._fullid_lookup[full_uuid(fi)] is not obj:
-                raise Failure("index/agreement" + hz, "lookup by local id and lookup by full id give the same object", "full id %s" % full_uuid(fi))
+                raise Failure(hz + "index/agreement", "lookup by local id and lookup by full id give the same object", "full id %s" % full_uuid(fi))
 
     def _check_futures(self, eff, hz, pre_keys):
         keep = []
@@ -675,23 +699,23 @@ class World:
             if must_finish:
                 if not fut.done():
                     multi = pre_keys is not None and len({k[1] for k in pre_keys[r] if k[0] == local}) > 1
-                    raise Failure("futures/left-pending" + ("/both-request-types" if multi else "") + hz,
+                    raise Failure(hz + "futures/left-pending" + ("/both-request-types" if multi else ""),
                                   "a pending request for a local id is cancelled when that object is killed, leaves the region or the region goes away",
                                   "%s request for region %d local %d still pending" % (typ, HANDLES[r], local))
                 continue
             if (r, local, typ) in eff.resolved:
                 obj = state.localid_lookup.get(local)
                 if not fut.done() or fut.cancelled() or fut.exception() is not None or fut.result() is not obj:
-                    raise Failure("futures/unresolved" + hz, "a pending request is resolved with the object when the matching update / property reply arrives",
+                    raise Failure(hz + "futures/unresolved", "a pending request is resolved with the object when the matching update / property reply arrives",
                                   "%s request for region %d local %d: %s" % (typ, HANDLES[r], local, "pending" if not fut.done() else "cancelled or wrong object"))
                 continue
             if (r, local, typ) in eff.may and fut.done():
                 if fut.cancelled() or fut.exception() is not None or fut.result() is not state.localid_lookup.get(local):
-                    raise Failure("futures/unresolved" + hz, "a request resolves with the object it asked for",
+                    raise Failure(hz + "futures/unresolved", "a request resolves with the object it asked for",
                                   "%s request for region %d local %d finished wrongly" % (typ, HANDLES[r], local))
                 continue
             if fut.done():
-                raise Failure("futures/spurious" + hz, "a request stays pending until something happens to its local id",
+                raise Failure(hz + "futures/spurious", "a request stays pending until something happens to its local id",
                               "%s request for region %d local %d finished (%s) although nothing happened to that local id"
                               % (typ, HANDLES[r], local, "cancelled" if fut.cancelled() else "resolved"))
             keep.append(rec)
@@ -780,8 +804,17 @@ class _Recorder:
         self.env = env
         self.failures = []
         self.shrunk_keys = set()
+        self.counts = {}               # failure key -> occurrences (at most 2 are kept)
+        self.hazard_failures = {}      # documented hazard -> failures seen at steps touching it
+
+    def saturated(self, hazard):
+        """a hazard that failed this often is a defect already reported: stop spending sessions on it"""
+        return self.hazard_failures.get(hazard, 0) >= 25
 
     def record(self, config, steps, f):
+        self.counts[f.key] = self.counts.get(f.key, 0) + 1
+        for h in f.hazards:
+            self.hazard_failures[h] = self.hazard_failures.get(h, 0) + 1
         n = sum(1 for x in self.failures if x["key"] == f.key)
         if n >= 2:
             return
@@ -846,13 +879,14 @@ def bounded_transitions(reg, tier, seed):
     perms = _perms(level)
     alphabet = structural_alphabet()
     budget = 16000 if tier == "quick" else 220000
-    max_len = 40
+    max_len = 60
     info = {}                 # concrete state key -> (class key, [(letter, canonical letter)])
     pending = {}              # class key -> canonical letters not yet executed from a state of the class
     hist = {}                 # class key -> shortest concrete history seen that reaches it
     unreachable = set()
     executed, distinct, samples = 0, set(), []
-    pairs_done = 0
+    pairs_done = moved = resets = 0
+    succ = {}                 # concrete state key -> [(letter, successor model)] for letters that change the scene graph
 
     def state_info(model):
         k = model.key()
@@ -896,8 +930,35 @@ def bounded_transitions(reg, tier, seed):
                 ck, letters = state_info(world.model)
                 todo = pending[ck]
                 cands = [(a, ca) for (a, ca) in letters if ca in todo]
+            if not cands and world is not None and len(world.steps) < max_len:
+                # nothing left to try here: one message that leads to a scene graph with unexecuted messages, if there is one
+                k = world.model.key()
+                nxt = succ.get(k)
+                if nxt is None:
+                    nxt = []
+                    for a, _ in letters:
+                        m2 = world.model.copy()
+                        m2.apply(a)
+                        if m2.key() != k:
+                            nxt.append((a, m2))
+                    succ[k] = nxt
+                moves = [a for a, m2 in nxt if pending[state_info(m2)[0]]]
+                if moves:
+                    a = moves[rng.randrange(len(moves))]
+                    step = ("upd", rng.choice(("full", "comp")), a[2], a[3]) if a[0] == "upd" else a
+                    try:
+                        executed += 1
+                        moved += 1
+                        distinct.add((k, step))
+                        world.step(step)
+                    except Failure as f:
+                        rec.record(DEFAULT_CONFIG, world.steps, f)
+                        world.close()
+                        world = None
+                    continue
             if not cands:
                 # fresh session, go to the nearest class that still has unexecuted messages
+                resets += 1
                 if world is not None:
                     world.close()
                     world = None
@@ -968,7 +1029,7 @@ def bounded_transitions(reg, tier, seed):
             "bounded": True,
             "bounds": {"local_ids": list(LOCALS), "full_ids": "2 prims + 1 avatar", "regions": "2 known + 1 unknown handle, teardown / re-handshake",
                        "messages": len(alphabet), "classes_seen": len(pending), "pairs_executed": pairs_done, "pairs_left": remaining,
-                       "complete": complete, "step_budget": budget},
+                       "complete": complete, "step_budget": budget, "sessions": resets, "connecting_steps": moved},
             "samples": samples, "failures": rec.failures}
 
 
